@@ -1723,8 +1723,12 @@ impl<'a, R: FileManager> FrontendCtx<'a, R> {
                                 DiagnosticInfoMessage::AnyhowError(e.to_string()),
                             )
                         })?;
-                        let res = self
-                            .semtype_to_runtype(subtracted_ty, &mut ctx, anchor)?
+                        let materialised = self.semtype_to_runtype(subtracted_ty, &mut ctx, anchor)?;
+                        // the materialisation may have introduced helper definitions for recursive types
+                        let validators_vec = self.validators_vec();
+                        let validators_reference_vec: Vec<&NamedSchema> =
+                            validators_vec.iter().collect();
+                        let res = materialised
                             .remove_nots_of_intersections_and_empty_of_union(
                                 &validators_reference_vec,
                                 &mut ctx,
@@ -3022,19 +3026,13 @@ impl<'a, R: FileManager> FrontendCtx<'a, R> {
         })? {
             return Ok(Runtype::never());
         }
-        let (head, tail) = semtype_to_runtypes(
-            ctx,
-            &access_st,
-            // TODO: do we need this?
-            &RuntypeUUID {
-                ty: RuntypeName::Address(TypeAddress {
-                    file: anchor.f.clone(),
-                    name: "AnyName".into(),
-                }),
-                type_arguments: vec![],
-            },
-            &mut self.counter,
-        )
+        // the name is only used when the type refers to itself; it has to be unique
+        self.counter += 1;
+        let head_name = RuntypeUUID {
+            ty: RuntypeName::SemtypeRecursiveGenerated(self.counter),
+            type_arguments: vec![],
+        };
+        let (head, tail) = semtype_to_runtypes(ctx, &access_st, &head_name, &mut self.counter)
         .map_err(|any| {
             self.box_error(anchor, DiagnosticInfoMessage::AnyhowError(any.to_string()))
         })?;
